@@ -142,6 +142,26 @@ func (e *Engine) computeModsets() {
 		for _, b := range fn.Blocks {
 			for _, ins := range b.Instrs {
 				switch i := ins.(type) {
+				case *ssa.Alloc:
+					// zero-initialisation of a heap object writes all of its fields
+					if i.Heap {
+						for _, k := range e.pointeeKeys(i.Type()) {
+							d[k] = true
+						}
+					}
+				case *ssa.MakeMap:
+					if m, ok := i.Type().Underlying().(*types.Map); ok {
+						a, b2, c := e.mapKeys(m)
+						d[a], d[b2], d[c] = true, true, true
+					}
+				case *ssa.MakeInterface:
+					if n, ok := i.X.Type().(*types.Named); ok {
+						if _, ok := n.Underlying().(*types.Struct); ok && !isRefType(n) {
+							for _, k := range e.structKeys(n) {
+								d[k] = true
+							}
+						}
+					}
 				case *ssa.Store:
 					for _, k := range e.rootKeys(i.Addr, fn) {
 						d[k] = true
